@@ -118,15 +118,22 @@ POOL = [
     Val("bound:native", "var $ = [1].len;", (12, 0, 0, 0, 0), "bound", 1, plain=False),
     Val("bound:closure", "var $ = PC.new().m;", (12, 0, 0, 0, 0), "bound", 0, plain=False),
     Val("bound:static", "var $ = Fiber.yield;", (12, 0, 0, 0, 0), "bound", 1, plain=False),
-    Val("iter:vec", "var $ = [1, 2].iter();", (13, 2, 0, 0, 0), "iter", 2),
+    # iterators: tag = (13, kind, cursor, CURRENT length of the iterated container, 0)
+    Val("iter:vec", "var $ = [1, 2].iter();", (13, 2, 0, 2, 0), "iter", 2),
     Val("iter:vec-done", "var $ = [].iter(); $.next(); $.next();", (13, 2, 0, 0, 0), "iter", 2),
-    Val("iter:str", 'var $ = "aé".iter();', (13, 0, 0, 0, 0), "iter", 0),
+    Val("iter:vec-end", "var $v = [1, 2]; var $ = $v.iter(); $.next(); $.next();", (13, 2, 2, 2, 0), "iter", 2),
+    Val("iter:vec-stale", "var $v = [1, 2, 3, 4]; var $ = $v.iter(); $.next(); $.next(); $.next(); $v.pop(); $v.pop();", (13, 2, 3, 2, 0), "iter", 2),
+    Val("iter:vec-stale0", "var $v = [1, 2]; var $ = $v.iter(); $.next(); $.next(); $v.pop(); $v.pop();", (13, 2, 2, 0, 0), "iter", 2),
+    Val("iter:vec-stale1", "var $v = [1, 2, 3]; var $ = $v.iter(); $.next(); $.next(); $.next(); $.next(); $v.pop(); $v.pop();", (13, 2, 3, 1, 0), "iter", 2),
+    Val("iter:vec-grown", "var $v = [1]; var $ = $v.iter(); $.next(); $.next(); $v.push(5);", (13, 2, 1, 2, 0), "iter", 2),
+    Val("iter:str", 'var $ = "aé".iter();', (13, 0, 0, 3, 0), "iter", 0),
     Val("iter:str-done", 'var $ = "".iter(); $.next();', (13, 0, 0, 0, 0), "iter", 0),
-    Val("iter:tuple", "var $ = (1, 2).iter();", (13, 1, 0, 0, 0), "iter", 1),
+    Val("iter:tuple", "var $ = (1, 2).iter();", (13, 1, 0, 2, 0), "iter", 1),
     Val("iter:tuple-done", "var $ = ().iter(); $.next();", (13, 1, 0, 0, 0), "iter", 1),
-    Val("iter:range", "var $ = (0..2).iter();", (13, 3, 0, 0, 0), "iter", 3),
-    Val("iter:range-done", "var $ = (0..1).iter(); $.next(); $.next(); $.next();", (13, 3, 0, 0, 0), "iter", 3),
-    Val("iter:range-down", "var $ = (2..-1).iter(); $.next();", (13, 3, 0, 0, 0), "iter", 3),
+    Val("iter:tuple-end", "var $ = (1, 2).iter(); $.next(); $.next(); $.next();", (13, 1, 2, 2, 0), "iter", 1),
+    Val("iter:range", "var $ = (0..2).iter();", (13, 3, 0, 2, 0), "iter", 3),
+    Val("iter:range-done", "var $ = (0..1).iter(); $.next(); $.next(); $.next();", (13, 3, 1, 1, 0), "iter", 3),
+    Val("iter:range-down", "var $ = (2..-1).iter(); $.next();", (13, 3, 1, 3, 0), "iter", 3),
     Val("fiber:new0", "var $ = Fiber.new(|| 1);", (14, 1, 1, 0, 1), "fiber"),
     Val("fiber:new1", "var $ = Fiber.new(|x| x);", (14, 1, 1, 0, 2), "fiber"),
     Val("fiber:suspended0", "var $ = Fiber.new(|| { Fiber.yield(1); return 2; }); $.call();", (14, 1, 0, 0, 1), "fiber"),
@@ -143,8 +150,9 @@ BY_NAME = {v.name: v for v in POOL}
 
 RECV_OF = {"String": "str", "StringIter": None, "Tuple": "tuple", "TupleIter": None, "Vec": "vec", "VecIter": None,
            "Range": "range", "RangeIter": None, "HashMap": "map", "Fiber": "fiber"}
-ITER_RECV = {"StringIter": ["iter:str", "iter:str-done"], "TupleIter": ["iter:tuple", "iter:tuple-done"],
-             "VecIter": ["iter:vec", "iter:vec-done"], "RangeIter": ["iter:range", "iter:range-done", "iter:range-down"]}
+ITER_RECV = {"StringIter": ["iter:str", "iter:str-done"], "TupleIter": ["iter:tuple", "iter:tuple-done", "iter:tuple-end"],
+             "VecIter": ["iter:vec", "iter:vec-done", "iter:vec-end", "iter:vec-stale", "iter:vec-stale0", "iter:vec-stale1", "iter:vec-grown"],
+             "RangeIter": ["iter:range", "iter:range-done", "iter:range-down"]}
 TARGETED = {"String#find": ("str", "num"), "String#replace": ("str", "str"), "vm:set_item": ("num", "nil")}
 CLASS_RECV = Val("class:static", "", (8, 0, 0, 0, 0), "class")
 NATIVE_RECV = Val("native:self", "", (11, 0, 0, 0, 0), "native")
@@ -378,6 +386,221 @@ def run_op_snippets(ctx, binary, snippets, group, what):
     return ok, err, fails
 
 
+# ------------------------------------------------------------------------------------------
+# stateful iterator misuse: containers mutated while an iterator over them is live; next() far past the end
+
+
+class VecSim:
+    """reference semantics of a vec and of iterators over it (cursor; a cursor at or beyond the length yields the sentinel)"""
+
+    def __init__(self, n):
+        self.v = list(range(10, 10 + n))
+        self.cur = 0
+
+    def raw_next(self):
+        if self.cur >= len(self.v):
+            return None
+        x = self.v[self.cur]
+        self.cur += 1
+        return x
+
+
+STOP = "<StopIter"
+
+
+def show_next(x):
+    return STOP if x is None else str(x)
+
+
+def seq_case(n, ops, adapter):
+    """explicit probe: ops over N(ext) P(op) U(push) S(et v[0]) C(lear by popping all) R(eplace the variable) + 4 trailing nexts"""
+    sim = VecSim(n)
+    init = ", ".join(str(x) for x in sim.v)
+    src = ["var v = [%s];" % init]
+    if adapter == "plain":
+        src.append("var it = v.iter();")
+    elif adapter == "map":
+        src.append("var it = v.iter().map(|x| x * 2);")
+    elif adapter == "filter":
+        src.append("var it = v.iter().filter(|x| x % 2 == 0);")
+    else:
+        src.append("var it = v.iter().filter(|x| x % 2 == 0).map(|x| x + 1);")
+    exp = []
+    replaced = False
+
+    def nxt():
+        if adapter == "plain":
+            return sim.raw_next()
+        if adapter == "map":
+            x = sim.raw_next()
+            return None if x is None else x * 2
+        while True:
+            x = sim.raw_next()
+            if x is None:
+                return None
+            if x % 2 == 0:
+                return x if adapter == "filter" else x + 1
+    target = sim.v      # the list the iterator walks; after R the variable names another vec
+    other = None
+    for o in list(ops) + ["N", "N", "N", "N"]:
+        cur = other if replaced else target
+        if o == "N":
+            src.append("print(it.next());")
+            exp.append(show_next(nxt()))
+        elif o == "P":
+            src.append('try { v.pop(); } catch e { print("E"); }')
+            if cur:
+                cur.pop()
+            else:
+                exp.append("E")
+        elif o == "U":
+            src.append("v.push(%d);" % (20 + len(exp)))
+            cur.append(20 + len(exp))
+        elif o == "S":
+            src.append('try { v[0] = 98; } catch e { print("E"); }')
+            if cur:
+                cur[0] = 98
+            else:
+                exp.append("E")
+        elif o == "C":
+            src.append("while v.len() > 0 { v.pop(); }")
+            del cur[:]
+        elif o == "R":
+            src.append("v = [1, 2, 3];")
+            other = [1, 2, 3]
+            replaced = True
+    return "\n".join(src), exp
+
+
+def for_case(n, trigger, action):
+    """for loop whose body mutates the iterated vec when it sees `trigger`"""
+    sim = VecSim(n)
+    acts = {"pop1": 'v.pop();', "pop2": 'v.pop(); v.pop();', "pop3": 'v.pop(); v.pop(); v.pop();', "clear": "while v.len() > 0 { v.pop(); }",
+            "push": "if v.len() < 9 { v.push(50); }", "set": "v[0] = 98;", "pop-push": "v.pop(); v.pop(); v.push(51);", "replace": "v = [7, 8];"}
+    src = 'var v = [%s];\nfor q in v { print(q); if q == %d { try { %s } catch e { print("E"); } } }\nprint(v.len());' % (
+        ", ".join(str(x) for x in sim.v), trigger, acts[action])
+    exp = []
+    v = sim.v
+    named = v
+    guard = 0
+    while guard < 100:
+        guard += 1
+        x = sim.raw_next()
+        if x is None:
+            break
+        exp.append(str(x))
+        if x == trigger:
+            try:
+                if action.startswith("pop") and action != "pop-push":
+                    for _ in range(int(action[3:])):
+                        if not named:
+                            raise IndexError
+                        named.pop()
+                elif action == "clear":
+                    del named[:]
+                elif action == "push":
+                    if len(named) < 9:
+                        named.append(50)
+                elif action == "set":
+                    if not named:
+                        raise IndexError
+                    named[0] = 98
+                elif action == "pop-push":
+                    for _ in range(2):
+                        if not named:
+                            raise IndexError
+                        named.pop()
+                    named.append(51)
+                elif action == "replace":
+                    named = [7, 8]
+            except IndexError:
+                exp.append("E")
+    exp.append(str(len(named)))
+    return src, exp
+
+
+def gen_iter_cases(ctx, quick):
+    """[(source, expected printed lines or None)]"""
+    import itertools
+    rng = ctx.rng
+    cases = []
+    maxlen = 4 if quick else 5
+    for n in range(0, 5):
+        for L in range(1, maxlen + 1):
+            for ops in itertools.product("NPUS", repeat=L):
+                cases.append(seq_case(n, ops, "plain"))
+    for _ in range(200 if quick else 3000):
+        n = rng.randint(0, 6)
+        ops = [rng.choice("NNNPPUSCR") for _ in range(rng.randint(3, 10))]
+        cases.append(seq_case(n, ops, rng.choice(["plain", "map", "filter", "chain"])))
+    for n in range(1, 7):
+        for trig in range(10, 10 + n):
+            for act in ("pop1", "pop2", "pop3", "clear", "push", "set", "pop-push", "replace"):
+                cases.append(for_case(n, trig, act))
+    # the other native iterators far past the end, adapters over them, snapshots of maps
+    fixed = [
+        ('var it = (1, 2, 3).iter(); var i = 0; while i < 9 { print(it.next()); i = i + 1; }', ["1", "2", "3"] + [STOP] * 6),
+        ('var it = "aé€".iter(); var i = 0; while i < 9 { print(it.next()); i = i + 1; }', ["a", "é", "€"] + [STOP] * 6),
+        ('var it = "".iter(); var i = 0; while i < 5 { print(it.next()); i = i + 1; }', [STOP] * 5),
+        ('var it = (0..3).iter(); var i = 0; while i < 9 { print(it.next()); i = i + 1; }', ["0", "1", "2"] + [STOP] * 6),
+        ('var it = (2..-2).iter(); var i = 0; while i < 9 { print(it.next()); i = i + 1; }', ["2", "1", "0", "-1"] + [STOP] * 5),
+        ('var it = (5..5).iter(); var i = 0; while i < 4 { print(it.next()); i = i + 1; }', [STOP] * 4),
+        ('var it = ().iter(); var i = 0; while i < 4 { print(it.next()); i = i + 1; }', [STOP] * 4),
+        ('var it = (1, 2, 3, 4).iter().filter(|x| x > 2).map(|x| x * 10); var i = 0; while i < 6 { print(it.next()); i = i + 1; }', ["30", "40"] + [STOP] * 4),
+        ('var it = "ab".iter().map(|c| c + c); var i = 0; while i < 5 { print(it.next()); i = i + 1; }', ["aa", "bb"] + [STOP] * 3),
+        ('var m = {1: 1, 2: 2, 3: 3}; var n = 0; for k in m.keys() { m.remove(k); m.insert(k + 10, 0); n = n + 1; } print(n); print(m.len());', ["3", "3"]),
+        ('var m = {1: 1, 2: 2}; var n = 0; for kv in m.items() { m.clear(); n = n + 1; } print(n); print(m.len());', ["2", "0"]),
+        ('var m = {1: 1, 2: 2}; var ks = m.keys(); var it = ks.iter(); it.next(); ks.pop(); ks.pop(); print(it.next()); print(it.next()); m.clear(); print(it.next());', [STOP] * 3),
+        ('var m = {1: [1, 2, 3]}; var n = 0; for x in m.get(1) { m.get(1).pop(); m.get(1).pop(); n = n + 1; } print(n);', ["1"]),
+        ('var v = [1, 2, 3, 4]; var a = v.iter(); var b = v.iter(); a.next(); a.next(); a.next(); b.next(); v.pop(); v.pop(); v.pop(); print(a.next()); print(b.next()); print(a.next()); print(b.next());', [STOP] * 4),
+        ('var v = [1, 2, 3, 4, 5, 6]; var n = 0; for x in v { for y in v { v.pop(); n = n + 1; } } print(n); print(v.len());', None),
+        ('var v = [1, 2, 3, 4]; var n = 0; for x in v.iter().map(|q| { v.pop(); return q; }) { n = n + 1; } print(n); print(v.len());', ["2", "2"]),
+        ('var v = [1, 2, 3, 4]; print(v.iter().filter(|q| { v.pop(); v.pop(); return true; }).collect());', None),
+        ('var v = [3, 4, 5, 6]; print(v.iter().reduce(|a, q| { v.pop(); v.pop(); return a + q; }, 0));', None),
+    ]
+    cases.extend(fixed)
+    return cases
+
+
+def run_iter_cases(ctx, binary, cases, what):
+    """returns (#agree, #differ, failures[(source, description)], first differences)"""
+    group = 24
+    body = lambda i, src: 'print("#%d");\n{\n%s\n}' % (i, src)
+    reqs = [PRELUDE + "\n".join(body(i + j, c[0]) for j, c in enumerate(cases[i:i + group])) for i in range(0, len(cases), group)]
+    recs = run_confirmed(ctx, binary, [mods_line(s) for s in reqs], what)
+    agree = differ = 0
+    fails = []
+    diffs = []
+    redo = []
+
+    def judge(i, lines):
+        nonlocal agree, differ
+        exp = cases[i][1]
+        got = [STOP if l.startswith(STOP) else l for l in lines]
+        if exp is None or got == exp:
+            agree += 1
+        else:
+            differ += 1
+            if len(diffs) < 5:
+                diffs.append((cases[i][0], exp, got))
+    for k, (src, r) in enumerate(zip(reqs, recs)):
+        if bad_record(r) is None and r.result[0] == "ok":
+            got = parse_probe_output(r.output)
+            for i in range(k * group, min(len(cases), (k + 1) * group)):
+                judge(i, got.get(i, []))
+        else:
+            redo.extend(range(k * group, min(len(cases), (k + 1) * group)))
+    if redo:
+        r2 = yvlib.run_harness(binary, [mods_line(PRELUDE + body(i, cases[i][0])) for i in redo], quarantine=True, case_timeout_ms=30000, recycle=20)
+        for i, r in zip(redo, r2):
+            bad = bad_record(r)
+            if bad or r.result[0] != "ok":
+                fails.append((PRELUDE + cases[i][0], bad or ("ends in an uncaught error: %s" % r.messages[:2])))
+            else:
+                judge(i, parse_probe_output(r.output).get(i, []))
+    return agree, differ, fails, diffs
+
+
 def gen_derived_probes(ctx, per):
     rng = ctx.rng
     probes = []
@@ -483,7 +706,7 @@ def classify_lines(lines):
 RK_CLASS = {"Nil": "<class Nil>", "Bool": "<class Boolean>", "Num": "<class Num>", "String": "<class String>",
             "Tuple": "<class Tuple>", "Vec": "<class Vec>", "Fiber": "<class Fiber>", "StringIter": "<class StringIter>",
             "TupleIter": "<class TupleIter>", "VecIter": "<class VecIter>", "RangeIter": "<class RangeIter>",
-            "instance": "<class Error>"}
+            "instance": "<class Error>", "StopIter": "<class StopIter>"}
 
 
 def compare(probe, model, impl):
@@ -936,6 +1159,19 @@ def run(ctx):
     hist["op:fail"] = len(op_fails)
     log('[C02] operator probes: %d in %.1fs' % (len(ops), time.time() - t0))
     t0 = time.time()
+    # ---- stateful iterator misuse (oracle impl == S, and the printed values against the reference cursor semantics) ----
+    icases = gen_iter_cases(ctx, quick)
+    it_agree, it_differ, it_fails, it_diffs = run_iter_cases(ctx, binary, icases, "debug iterator")
+    for s1, bad in it_fails[:3]:
+        ctx.violation("a container mutated under a live iterator / an iterator advanced past its end does not end in a value or a reported error: %s" % bad,
+                      input=s1, expected="Ok or Err(Error)", actual=bad)
+    for src_, exp_, got_ in it_diffs[:3]:
+        ctx.corr_broken.append("iterator reference semantics (cursor >= length -> StopIter sentinel) differ from the implementation: expected %s, got %s | %s" % (exp_, got_, src_[:300]))
+    hist["iter:agree"] = it_agree
+    hist["iter:differ"] = it_differ
+    hist["iter:fail"] = len(it_fails)
+    log('[C02] iterator-misuse cases: %d in %.1fs' % (len(icases), time.time() - t0))
+    t0 = time.time()
     # ---- (b) ill-typed programs: oracle impl == S ----
     nprog = 400 if quick else 3000
     gen = ProgGen(rng)
@@ -1025,8 +1261,8 @@ def run(ctx):
     log('[C02] site check: %d functions in %.1fs' % (fns, time.time() - t0))
     ncalls = len(probes) + len(dprobes)
     ctx.cov.update({
-        "operator_probes": len(ops),
-        "evaluations": ncalls + len(ops) + len(progs) * len(builds) + len(KNOWN) + (len(probes) if not quick else 0),
+        "operator_probes": len(ops), "iterator_misuse_cases": len(icases),
+        "evaluations": ncalls + len(ops) + len(icases) + len(progs) * len(builds) + len(KNOWN) + (len(probes) if not quick else 0),
         "distinct_nontrivial": len(nontrivial),
         "rule": "native calls: distinct (native, fiber context, receiver kind, argument-kind vector) combinations whose outcome is NOT an arity error "
                 "(the call got past check_num_args / the at-most-1 test); kinds as in NativesModel.akind (number class, vec length, tuple hashability, "
